@@ -248,7 +248,13 @@ class Inductor(Entity):
 
         # Schedule poll after one smoothed interval
         wait_s = self._smoothed_interval if self._smoothed_interval else 0.01
-        poll_time = now + Duration.from_seconds(wait_s)
+        wait = Duration.from_seconds(wait_s)
+        # Guard: a positive interval below 1 ns truncates to zero; the poll
+        # would then fire at this very instant, still be unable to forward,
+        # and be rescheduled forever. Ensure progress.
+        if wait == Duration.ZERO:
+            wait = Duration(1)
+        poll_time = now + wait
         return [
             Event(
                 time=poll_time,
